@@ -424,7 +424,7 @@ func TestC08ClassDef(t *testing.T) {
 
 type gdefCase struct {
 	table    *gdef.Table
-	overflow bool // some sub-table necessarily starts beyond 64 KiB in header order
+	overflow bool // the second class table starts beyond 64 KiB behind the first (the mark glyph sets use 32-bit offsets): refusal is legitimate
 	desc     string
 }
 
@@ -479,8 +479,8 @@ func genGdef(t *rapid.T) *gdefCase {
 		}
 		return cd
 	}
-	layout := rapid.SampledFrom([]string{"fits-60k+4k", "overflow-2x40k", "overflow-3rd", "overflow-1st>64k"}).Draw(t, "gdefLayout")
-	if layout != "fits-60k+4k" && skipSite(siteGdefHeader) {
+	layout := rapid.SampledFrom([]string{"fits-60k+4k", "fits-2x40k", "fits-60k+20k+sets", "fits-1st>64k-alone", "overflow-1st>64k"}).Draw(t, "gdefLayout")
+	if layout == "overflow-1st>64k" && skipSite(siteGdefHeader) {
 		layout = "fits-60k+4k"
 	}
 	switch layout {
@@ -488,18 +488,21 @@ func genGdef(t *rapid.T) *gdefCase {
 		c.table.GlyphClass = alt(rapid.IntRange(25000, 30000).Draw(t, "n1"), 0)
 		c.table.MarkAttachClass = alt(2000, 5)
 		c.table.MarkGlyphSets = []coverage.Set{setGlyphs(lookups.Spread(10000, 0, []int{2}))}
-	case "overflow-2x40k": // the mark glyph sets start at 12+2*40k
+	case "fits-2x40k": // 80 KiB of class tables: the second starts at 40 KiB, the coverage tables of the sets come last
 		n := rapid.IntRange(20000, 24000).Draw(t, "n2")
 		c.table.GlyphClass = alt(n, 0)
 		c.table.MarkAttachClass = alt(n, 3)
 		c.table.MarkGlyphSets = []coverage.Set{setGlyphs([]glyph.ID{1, 2, 3})}
-		c.overflow = true
-	case "overflow-3rd":
+	case "fits-60k+20k+sets":
 		c.table.GlyphClass = alt(30000, 0)
 		c.table.MarkAttachClass = alt(10000, 3)
 		c.table.MarkGlyphSets = []coverage.Set{setGlyphs([]glyph.ID{9}), setGlyphs(lookups.Spread(3000, 5, []int{3}))}
-		c.overflow = true
-	case "overflow-1st>64k": // second table starts beyond 64 KiB
+	case "fits-1st>64k-alone": // one class table beyond 64 KiB, nothing behind it but coverage tables
+		c.table.GlyphClass = alt(rapid.IntRange(33000, 40000).Draw(t, "n3"), 0)
+		if rapid.Bool().Draw(t, "withSets") {
+			c.table.MarkGlyphSets = []coverage.Set{setGlyphs([]glyph.ID{4, 5})}
+		}
+	case "overflow-1st>64k": // second class table starts beyond 64 KiB
 		c.table.GlyphClass = alt(rapid.IntRange(33000, 40000).Draw(t, "n3"), 0)
 		c.table.MarkAttachClass = alt(10, 3)
 		c.overflow = true
